@@ -216,6 +216,79 @@ def run_units(mod, tier, jobs=None):
     return total
 
 
+# ----------------------------------------------------------------------------- environment variants
+# A check may name environments other than the default one in which a SUBSET of its units is executed again, in a child
+# interpreter: ENV_VARIANTS = [{'name': 'python-O', 'flags': ['-O']}, {'name': 'locale-C', 'env': {...}}, {'name': .., 'rlimit': {'AS': n}}]
+# and variant_units(tier, seed, name) -> [(uid, payload)].  Violations found there carry the environment in site and case.
+def _variant_preexec(var):
+    lim = var.get('rlimit') or {}
+    if not lim:
+        return None
+
+    def f():
+        import resource
+        for k, v in lim.items():
+            resource.setrlimit(getattr(resource, 'RLIMIT_' + k), (v, v))
+    return f
+
+
+def variant_cmd(var, prop, extra):
+    env = dict(os.environ)
+    env.update(var.get('env', {}))
+    env['VERIF_VARIANT'] = var['name']
+    for k in var.get('unset', []):
+        env.pop(k, None)
+    return ['/venv/bin/python', '-B'] + list(var.get('flags', [])) + ['-m', 'mc.cli', prop] + extra, env
+
+
+def run_variants(mod, tier, total):
+    for var in getattr(mod, 'ENV_VARIANTS', []):
+        cmd, env = variant_cmd(var, mod.PROPERTY, [tier, '--variant', var['name']])
+        t0 = time.time()
+        try:
+            p = subprocess.run(cmd, capture_output=True, text=True, env=env, timeout=UNIT_TIMEOUT[tier], preexec_fn=_variant_preexec(var), cwd=VERIF)
+            line = [l for l in p.stdout.splitlines() if l.startswith('VARIANT-RESULT ')]
+            if not line:
+                raise RuntimeError('variant child produced no result (rc=%s): %s' % (p.returncode, (p.stdout + p.stderr)[-600:]))
+            sub = json.loads(line[-1][len('VARIANT-RESULT '):])
+        except Exception as e:
+            r = Result()
+            r.v(mod.PROPERTY, 'unit', 'unexpected-exception', 'environment-variant/%s' % var['name'], {'environment': var['name']},
+                'the units run in the child interpreter', exc_text(e))
+            merge(total, r)
+            continue
+        for v in sub['violations']:
+            v['site'] = '%s@%s' % (v['site'], var['name'])
+            v['signature'] = '%s|%s|%s|%s' % (v['property'], v['component'], v['kind'], v['site'])
+            if isinstance(v.get('case'), dict):
+                v['case']['environment'] = var['name']
+            v['unit_index'] = 10 ** 6
+            total['violations'].append(v)
+        for k in ('evaluations', 'states', 'transitions', 'nontrivial', 'traces'):
+            total[k] += sub.get(k, 0)
+        for k, n in sub.get('counters', {}).items():
+            total['counters']['%s@%s' % (k, var['name'])] += n
+        total['counters']['environment-variant-units@%s' % var['name']] += sub.get('n_units', 0)
+        total['outcomes']['environment/%s' % var['name']] += 1
+        total['caps'].extend(sub.get('caps', []))
+
+
+def variant_child(mod, tier, name):
+    """runs in the child interpreter: the variant's units, result as one JSON line"""
+    import types
+    units = list(mod.variant_units(tier, SEED, name))
+    shim = types.SimpleNamespace(**{k: getattr(mod, k) for k in dir(mod) if not k.startswith('__')})
+    shim.units = lambda tier_, seed_: units
+    shim.__name__ = mod.__name__
+    total = run_units(shim, tier, jobs=min(NPROC, 8))
+    out = {k: total[k] for k in ('evaluations', 'states', 'transitions', 'nontrivial', 'traces', 'caps')}
+    out['violations'] = total['violations']
+    out['counters'] = dict(total['counters'])
+    out['n_units'] = total.get('n_units', 0)
+    print('VARIANT-RESULT ' + json.dumps(out, default=repr))
+    return 0
+
+
 # ----------------------------------------------------------------------------- reporting
 def write_replay(v):
     os.makedirs(REPLAY_DIR, exist_ok=True)
@@ -246,11 +319,15 @@ def report(mod, tier, total, wall, extra_cov=None, write_evidence=True):
     for v in sorted(total['violations'], key=lambda v: v.get('unit_index', 0)):
         by_sig.setdefault(v['signature'], []).append(v)
     new, printed_known = [], 0
+    variant_names = {v['name'] for v in getattr(mod, 'ENV_VARIANTS', [])}
     for sig, vs in by_sig.items():
-        if sig in known and known[sig][0] == prop:
-            print('KNOWN-FINDING: property=%s %s  [signature=%s, %d occurrence(s) in this run; e.g. case=%s observed=%s]'
-                  % (prop, known[sig][1], sig, len(vs), short(json.dumps(vs[0]['case']), 160), short(vs[0]['observed'], 120)))
-            printed_known += 1
+        # the same finding met again in another environment (signature suffix @<variant>) is the same finding
+        base = sig.rsplit('@', 1)[0] if '@' in sig and sig.rsplit('@', 1)[1] in variant_names else sig
+        if base in known and known[base][0] == prop:
+            if base == sig or base not in by_sig:
+                print('KNOWN-FINDING: property=%s %s  [signature=%s, %d occurrence(s) in this run; e.g. case=%s observed=%s]'
+                      % (prop, known[base][1], sig, len(vs), short(json.dumps(vs[0]['case']), 160), short(vs[0]['observed'], 120)))
+                printed_known += 1
         else:
             new.append((sig, vs))
     max_report = int(os.environ.get('VERIF_MAX_REPORT', '12'))
@@ -292,7 +369,7 @@ def report(mod, tier, total, wall, extra_cov=None, write_evidence=True):
             'vacuity_counters': dict(sorted(total['counters'].items())),
             'caps_hit': total['caps'][:20],
             'violation_signatures': [s for s, _ in new][:50],
-            'known_finding_signatures': [s for s in by_sig if s in known],
+            'known_finding_signatures': [s for s in by_sig if s in known or (('@' in s) and s.rsplit('@', 1)[0] in known)],
             'slowest_units': total.get('slowest_units', []),
             'engine': getattr(mod, 'ENGINE', ''),
         }
